@@ -209,6 +209,99 @@ func VerifC14_Matrix() {
 	}
 }
 
+// VerifC14_ServerFailure: the chunk server in front of an upstream store that is missing the
+// chunk, fails the call, or holds a chunk file that cannot be decoded (a compressed upstream
+// behind a server that must convert).  On the wire a failure is a 5xx and a miss a 404 - never
+// 200 - and the client (verifying or not) reports it as an error that is not ChunkMissing.
+func VerifC14_ServerFailure() {
+	clientUnc := vChoose("client-uncompressed", 2) == 1
+	skip := vChoose("client-skip-verify", 2) == 1
+	good := NewChunk([]byte{0x61, 0x62})
+	id := good.ID()
+	var up Store
+	kind := vChoose("upstream", 4)
+	switch kind {
+	case 0: // present and intact (the control)
+		st := &verifStore{}
+		st.add([]byte{0x61, 0x62})
+		up = st
+	case 1: // missing
+		up = &verifStore{}
+	case 2: // the upstream call fails
+		st := &verifStore{failGet: map[int]bool{0: true}, failHas: map[int]bool{0: true}, failPut: map[int]bool{0: true}}
+		st.add([]byte{0x61, 0x62})
+		up = st
+	case 3: // a compressed local store whose chunk file does not decompress, read without verification
+		ls, _ := NewLocalStore(vTempDir(), StoreOptions{SkipVerify: true})
+		vAssert(ls.StoreChunk(good) == nil, "upstream store")
+		_, p := ls.nameFromID(id)
+		ioutil.WriteFile(p, vBytes("garbage", 3), 0644)
+		up = ls
+	}
+	sconv := Converters{Compressor{}}
+	if clientUnc {
+		sconv = Converters{}
+	}
+	h := NewHTTPHandler(up, true, false, sconv, "")
+	rt := &verifRT{}
+	var codes []int
+	rt.f = func(r *http.Request) (*http.Response, error) {
+		w := &verifRW{}
+		h.ServeHTTP(w, r)
+		if w.code == 0 {
+			w.code = 200
+		}
+		codes = append(codes, w.code)
+		return verifResp(w.code, w.body), nil
+	}
+	s := verifHTTPStore(rt, StoreOptions{ErrorRetry: 1, Uncompressed: clientUnc, SkipVerify: skip})
+	op := vChoose("op", 3)
+	var c *Chunk
+	var err error
+	var has bool
+	switch op {
+	case 0:
+		c, err = s.GetChunk(id)
+	case 1:
+		has, err = s.HasChunk(id)
+	case 2:
+		err = s.StoreChunk(good)
+	}
+	vCover("request-returned")
+	_, missing := err.(ChunkMissing)
+	code := codes[len(codes)-1]
+	decodable := kind != 3 || (clientUnc == false) // a server serving compressed chunks passes the stored bytes through
+	switch {
+	case kind == 0 || (kind == 3 && op != 0):
+		vAssert(err == nil && code == 200, "healthy request failed")
+		if op == 1 {
+			vAssert(has, "present chunk reported absent")
+		}
+		if op == 0 {
+			verifDelivered(id, c, err, "RemoteHTTP.GetChunk")
+		}
+	case kind == 1 && op == 0:
+		vAssert(code == 404 && missing && c == nil, "missing chunk not reported as missing")
+	case kind == 1 && op == 1:
+		vAssert(code == 404 && err == nil && !has, "missing chunk not reported as absent on HEAD")
+	case kind == 1 && op == 2:
+		vAssert(err == nil && code == 200, "upload of a new chunk failed")
+	case kind == 2:
+		vAssert(code >= 500, "an upstream failure is not answered with a server error status")
+		vAssert(err != nil && !missing && c == nil && !has, "an upstream failure reported as success or as missing")
+	case kind == 3 && op == 0 && !decodable:
+		vCover("undecodable-upstream-chunk")
+		vAssert(code >= 500, "a chunk the server cannot decode is not answered with a server error status")
+		vAssert(err != nil && !missing && c == nil, "a chunk the server cannot decode reported as success or as missing")
+	case kind == 3 && op == 0:
+		// passed through untouched: the client sees the damage itself (or, not verifying, gets a chunk whose Data fails)
+		if err == nil {
+			_, derr := c.Data()
+			vAssert(derr != nil, "garbage decoded as a chunk")
+		}
+	}
+}
+
 // VerifC14_Protocol: casync protocol client against ProtocolServer over in-process pipes.
 func VerifC14_Protocol() {
 	vPreempt(0)
